@@ -119,6 +119,17 @@ def fitting_config(g, objs_span, **kw):
 
 # ------------------------------------------------------------------------------------ profiles
 
+def shuffle_tree(g, objs, p=0.3):
+    """Declaration order is free: a ref may come before its target, a block before or after the objects it is
+    compared with. Shuffles every object list of the tree with probability p (addresses are untouched)."""
+    if g.chance(p):
+        g.r.shuffle(objs)
+    for o in objs:
+        if o["kind"] == "block":
+            shuffle_tree(g, o["objects"], p)
+    return objs
+
+
 def nest(g, objs, p=0.3):
     """With probability p put the objects one or two blocks deep: an analysis must reach (and report from) every
     depth of the tree, not only the top level."""
@@ -256,6 +267,7 @@ def prof_mixed(g, n, **kw):
     for i in range(n):
         g.reset_names()
         objs, span = build_tree(g, **kw)
+        shuffle_tree(g, objs)
         cfg = g.config(addr_types=("u16", "i16", "u32", "i32", "i64", "u8"), byte_order_p=0.8)
         if kw.get("neg") and g.chance(0.35):
             # negative addresses (the book allows them): shift every top-level address / offset below zero and
@@ -311,6 +323,13 @@ def enum_case(width, values, use_try, base="uint", syntax="json", profile="enum"
         size = width + rw
     reg = {"kind": "register", "name": "R", "address": "0", "size_bits": size, "byte_order": "LE", "fields": fields}
     objs = [reg]
+    if reuse is not None and reuse[0] % 2 == 1:
+        # the enum generated on R.f is reused by name on a field of ANOTHER register (declared before or after R)
+        g_field = fields.pop()
+        g_field = dict(g_field, start=0, end=reuse[0])
+        reg["size_bits"] = max(width, 1)
+        other = {"kind": "register", "name": "Q", "address": "1", "size_bits": max(reuse[0], 1), "byte_order": "LE", "fields": [g_field]}
+        objs = [reg, other] if reuse[0] % 4 == 1 else [other, reg]
     if nested:
         objs = [{"kind": "block", "name": "Bank", "objects": objs}]
         if nested > 1:
@@ -1140,6 +1159,7 @@ def common_fragment_adef(g, rich=True):
             o["override"]["allow_address_overlap"] = g.chance(0.7)
     for o in objs:
         fix(o)
+    shuffle_tree(g, objs)
     cfg = g.config(p=0.5, addr_types=("u16", "i16", "u32", "i32", "i64"), byte_order_p=0.85)
     if g.chance(0.2):
         cfg["defmt_feature"] = "defmt-03"
